@@ -14,7 +14,9 @@ After audit_C03 (W1, W2, W3, D1, D2, D3).
    gives. THIS IS A BOUNDED TABLE, not the general theorem `C03_accept_iff_lenient` asked for in the
    audit: the general statement needs lexer / parser lemmas for a document specification with
    token-less continuation lines and `KEY WHITESPACE COLON` fields (neither `Spec/DocS` nor
-   `Spec/DocC` has them) and is NOT proved here.
+   `Spec/DocC` has them) and is NOT proved here. (Proved since, by another route — per-line lexing and
+   a lock-step simulation of the parser's loops, no document AST — in Props/C03Lenient.lean:
+   `C03_accept_iff_lenient`, `C03_reject_exact`; the table below stays as an independent cross-check.)
    `C03_lenient_kinds`: the two lenient kinds inside "single-line corruption" with their witnesses.
 2. `C03_value_drops_empty_first_line`: `Name:` + empty first line + continuation lines — the lossless
    value is the continuation texts joined (no leading LF), the lossy value keeps the empty first line.
